@@ -3,3 +3,4 @@
 pub mod util;
 pub mod exec;
 pub use util::*;
+pub mod scopedump;
